@@ -303,6 +303,14 @@ seq_t dtw_distance{{ suffix }}{{ suffix2 }}(seq_t *s1, idx_t l1,
         // DTWPruned keeps the last value larger than max_dist. Correct for this.
         result = INFINITY;
     }
+    {%- if "euclidean" == inner_dist %}
+    if (settings->use_pruning && result > max_dist) {
+    {%- else %}
+    if (settings->use_pruning && pow(result, 2) > max_dist) {
+    {%- endif %}
+        // Pruning is the same as passing the Euclidean upper bound as max_dist
+        result = INFINITY;
+    }
     return result;
 }
 
